@@ -354,6 +354,8 @@ theorem cov_bin (op : BinOp) (l r : Expr) (sg : Bool) (k : Gen.Kind) (ihl : Calc
     cases hs : r.asSmallConst with
     | some v =>
       simp only [binRight, hs] at hright
+      split at hright
+      · rw [fail_ok] at hright; exact hright.elim
       rw [emit_ok] at hright
       cases hright
       obtain ⟨ra, da⟩ := rd_alu_imm op (long.getD lres.long) lres.reg v
